@@ -82,6 +82,34 @@ def run(ck):
                     ck.ob("DEFUSE", f.path, "lock-count-written#%d" % n, inc or one,
                           "the count written is %s" % ("the old count checked_add 1" if inc else "1 (first lock on this prefix)") if inc or one else "the count written is neither 1 nor the old count + 1", f.loc(bi))
 
+    # the lock query inspects EVERY node on the descent: after the current node index is (re)assigned - to the root at the
+    # start, to a child on each step - no successful return and no further step is reached before that node's lock count
+    # (`value`) has been tested. (A query that steps first and tests afterwards never looks at the root: an iterator over
+    # the whole state locks nothing.)
+    f = getfn(ck, "sc", E, LL + "PrefixesMap::check_has_no_prefix")
+    if f:
+        idx_locals = set()
+        for (bi, t) in f.calls(r"Slab::<.*>::get$|slab::Slab<.*>::get$|::get$"):
+            if len(t["args"]) >= 2 and "InnerNode" in (f.locals[t["dest"][0]] if t.get("dest") else ""):
+                r = rules.root_local(f, t["args"][1])
+                if r and not r[1]:
+                    idx_locals.add(r[0])
+        defs_ = sorted(set(b2 for l in idx_locals for (b2, si, it) in f.defs().get(l, [])))
+        tests = set()
+        for (sb, st) in f.switches():
+            o = f.origins(st["d"], deep=True)
+            if ("field", "value") in o:
+                tests.add(sb)
+        acc, _ = f.accept_points()
+        bad = []
+        for d in defs_:
+            seen = f.reach_from(f.succ(d), avoid=tests)
+            if any(a in seen for a in acc) or any(d2 in seen and d2 != d for d2 in defs_) or (d in seen):
+                bad.append(d)
+        ck.ob("DOM", f.path, "every-visited-node-tested", len(idx_locals) == 1 and len(defs_) >= 2 and len(tests) >= 1 and not bad,
+              "after each of the %d assignments of the current node, its lock count is tested before the next step or a successful return" % len(defs_) if not bad and tests else
+              "a node reached on the descent (assignment at %s) is stepped over or accepted without its lock count being tested" % [f.loc(b) for b in bad], f.loc(bad[0]) if bad else f.loc())
+
     # acquire / release pairing
     cg = CallGraph([c])
     ins = cg.callers(re.compile(r"low_level::PrefixesMap::insert$"))
